@@ -266,6 +266,12 @@ fn literal_pool() -> Vec<(&'static str, String, V)> {
     out
 }
 
+/// values just outside the 32-bit integers and far outside
+const BIG_INTEGERS: &[u128] = &[
+    2147483648, 2147483649, 3000000000, 4294967295, 4294967296, 4294967297, 9007199254740992, 9007199254740993, 9223372036854775807, 9223372036854775808, 18446744073709551615, 18446744073709551616,
+    100000000000000000000,
+];
+
 const TEXT_ALPHABET: &[char] = &['a', '"', '\\', '\n', '\t', 'é', '漢', '😀', ' '];
 
 fn int_boundaries() -> Vec<i32> {
@@ -308,6 +314,7 @@ impl Check for C14Check {
             Phase::exhaustive("symbols", 12).with_chunk(2),
             Phase::random("random", tier.pick(250_000, 2_500_000), 96).with_min_tape(24).with_chunk(1024),
             Phase::exhaustive("literal-pairs", { let n = literal_pool().len() as u64; n * n * 2 }).with_chunk(64),
+            Phase::exhaustive("integers-beyond-32-bits", (BIG_INTEGERS.len() * 6) as u64).with_chunk(8),
         ]
     }
     fn run(&self, _tier: Tier, phase: usize, input: &Input, ctx: &mut CaseCtx) {
@@ -374,6 +381,56 @@ impl Check for C14Check {
                 let names = ["a", "my_symbol", "x1", "A_b_9", "snake_case_name", "a:b", "é", "名前", "naïve", "x漢y", "k", "Zz"];
                 let n = names[*i as usize];
                 self.judge("symbol", &format!(":{}", n), &V::Sym(symbol_value(n)), None, Some(n), !n.is_ascii() || n.contains('_'), ctx);
+            }
+            (6, Input::Index(i)) => {
+                // digits that spell a number outside the 32-bit integers: decimal forms denote the nearest float; radix forms
+                // may be rejected; neither may silently become a different number
+                let v: u128 = BIG_INTEGERS[(*i / 6) as usize];
+                let form = *i % 6;
+                let digits = |radix: u32| {
+                    let mut x = v;
+                    let mut out = vec![];
+                    while x > 0 {
+                        out.push(std::char::from_digit((x % radix as u128) as u32, radix).unwrap());
+                        x /= radix as u128;
+                    }
+                    out.iter().rev().collect::<String>()
+                };
+                let (spelling, radix): (String, Option<u32>) = match form {
+                    0 => (digits(10), None),
+                    1 => {
+                        // separators every three digits from the right
+                        let d = digits(10);
+                        let mut out = String::new();
+                        for (k, c) in d.chars().enumerate() {
+                            if k > 0 && (d.len() - k) % 3 == 0 {
+                                out.push('_');
+                            }
+                            out.push(c);
+                        }
+                        (out, None)
+                    }
+                    2 => (format!("02_{}", digits(2)), Some(2)),
+                    3 => (format!("08_{}", digits(8)), Some(8)),
+                    4 => (format!("016_{}", digits(16)), Some(16)),
+                    _ => (format!("036_{}", digits(36)), Some(36)),
+                };
+                let expected = V::Float(v as f64);
+                ctx.render(|| format!("literal {:?} spells {} (beyond 32 bits)", spelling, v));
+                ctx.class(if radix.is_some() { "big-radix-integer" } else { "big-integer" });
+                ctx.nontrivial(fnv(spelling.as_bytes()));
+                for imp in Impl::BOTH {
+                    ctx.sub_evals += 1;
+                    match eval_literal(imp, &spelling, None) {
+                        Err(e) if radix.is_some() && classify_error(&e) == "build-rejected" => ctx.class("big-radix-integer-rejected"),
+                        Err(e) => ctx.fail(format!("literal-not-evaluated:big-integer:{}", classify_error(&e)), format!("literal {:?} (value {}) on {}: {}", spelling, v, imp.name(), e)),
+                        Ok((got, _)) => {
+                            if !same(&got, &expected) {
+                                ctx.fail(format!("literal-denotes-something-else:big-integer:{}", if radix.is_some() { "radix" } else { "decimal" }), format!("literal {:?} on {} evaluates to {} instead of {} (or, for a radix form, being rejected)", spelling, imp.name(), got, expected));
+                            }
+                        }
+                    }
+                }
             }
             (5, Input::Index(i)) => {
                 // two literals in one source: what the first one leaves behind in the lexer must not leak into the second
